@@ -533,7 +533,7 @@ void apply(Inst &in, CaseCtx &cx, int op, uint8_t a, uint8_t b, int K, size_t ma
         CHECK(cc.calls == n, "C15.dlist.once", "clear made %zu callbacks for %zu elements", cc.calls, n);
         size_t sz;
         LIB(sz = cstl_dlist_size(l));
-        CHECK(sz == 0, "C15.dlist.empty", "size %zu after clear", sz);
+        CHECK(sz == 0, g_prop == "C15" ? "C15.dlist.empty" : "C12.size", "size %zu after clear", sz);
         if (in.primary && !cx.teardown) {
             if (n >= 3) { cx.cleared3[li] = true; CNT("class.clear.len3p"); }
             else CNT("class.clear.len0_2");
